@@ -108,6 +108,9 @@ def search(T):
                 report("terminated_permanent", s, e, "PIN state changed after the PUK counter was exhausted")
             if e == E["puk_bad"] and P["puk1"] <= p <= P["pin0"] and p2 != p - 1:
                 report("puk_bad_counts", s, e, "wrong PUK not counted")
+            # the PIN state rises only through an accepted unlock event (pin_rise_only_by_unlock)
+            if p2 > p and e not in (E["pin_ok"], E["can_ok"], E["puk_ok"], E["pin_activate"], E["pin_deactivate"]):
+                report("pin_rise_only_by_unlock", s, e, "PIN state raised by an event that is no successful password, activation or deactivation")
             # rule 4
             if p == P["pind"] and p2 != P["pind"] and not (e == E["pin_activate"] and a == A["auth_puk"]):
                 report("deactivated_exit", s, e, "deactivated state left without activation under PUK authentication")
@@ -155,6 +158,8 @@ def run(ctx):
     ctx.cov.update({"states": nstates, "transitions": nstates * 9, "table_entries_compared": len(ops),
                     "correspondence_disagreements": len(mism), "distinct_nontrivial": len(set(c_out))})
     ctx.samples += [{"op": ops[i], "impl": c_out[i]} for i in (15 * 128 + 0 * 16 + 1, 13 * 128 + 2 * 16 + 4, 0 * 128 + 3 * 16 + 2)]
+    ctx.samples.append({"theorem": "Bee2V.C20.puk_strikes", "statement": "∀ s es, Valid s → BInv s → c_puk_ok ∉ es → BInv (run s es) ∧ pukBadCount s es + (run s es).pin ≤ s.pin"})
+    ctx.samples.append({"theorem": "Bee2V.C20.pin_monotone", "statement": "∀ s es, Valid s → (∀ e ∈ es, isUnlock e = false) → (run s es).pin ≤ s.pin"})
     ctx.samples.append({"theorem": "Bee2V.C20.three_strikes", "statement": "∀ s es, Valid s → noReset s es → badCount s es + left (run s es).pin ≤ left s.pin"})
     if viol:
         for rule, p0, evs, why in viol:
